@@ -23,15 +23,20 @@ structure Force where
   posOnly : Bool            -- ForceImpl::dependsOnlyOnPositions()
   gravity : Bool := false   -- Force::Gravity: not position-only for the subsystem, keeps its own lazy cache
   paramStages : List Nat    -- stage invalidated by each of its discrete state variables
+  setterInval : List Bool := []   -- Force::Gravity: per State-level setter (order of `Gen.gravitySetters`), whether it
+                                  -- invalidates the lazy force cache before writing the parameter variable (or does not write)
 deriving Repr, DecidableEq, Inhabited
 
 /-- the row of the generated table read as a force element (`Force::Custom`: the user's choice `custom`) -/
 def Force.ofClass (c : FClass) (custom : Bool := false) : Force :=
-  { posOnly := c.posOnly.getD custom, gravity := c.name == "Force::GravityImpl", paramStages := c.paramStages }
+  { posOnly := c.posOnly.getD custom, gravity := c.name == "Force::GravityImpl", paramStages := c.paramStages,
+    setterInval := if c.name == "Force::GravityImpl" then Gen.gravitySetters.map (fun s => !s.2.1 || s.2.2) else [] }
 
 abbrev Snap := List Nat
 
 structure Vars where
+  opt : Nat := 0     -- Model-stage modelling options (SimbodyMatterSubsystem::setUseEulerAngles)
+  inst : Nat := 0    -- every other Instance-stage variable: mobilizer locks, constraint enable flags
   t : Nat := 0
   q : Nat := 0
   u : Nat := 0
@@ -45,9 +50,94 @@ deriving Repr, DecidableEq, Inhabited
 def inputs (fs : List Force) (v : Vars) (i : Nat) : Snap :=
   let f := fs.getD i default
   let p := v.params.getD i []
-  if f.gravity then (if v.zeroMag.getD i false then 0 :: p else 1 :: v.t :: v.q :: p)
-  else if f.posOnly then v.t :: v.q :: p
-  else v.t :: v.q :: v.u :: v.z :: p
+  if f.gravity then (if v.zeroMag.getD i false then 0 :: p else 1 :: v.opt :: v.inst :: v.t :: v.q :: p)
+  else if f.posOnly then v.opt :: v.inst :: v.t :: v.q :: p
+  else v.opt :: v.inst :: v.t :: v.q :: v.u :: v.z :: p
+
+/-! ### the matter subsystem's lazy cache entries
+
+`SimbodyMatterSubsystemRep::realizeSubsystemTopologyImpl` allocates five entries with
+`allocateCacheEntryWithPrerequisites` (table `Gen.matterEntries`, regenerated from the source on every run and pinned
+to `ME.expected` by `matter_table_ok` in the proof file): position kinematics (depends on Instance and on q,
+guaranteed by Position), composite-body inertias (prerequisite: position kinematics; never computed unless asked
+for), articulated-body inertias (prerequisite: position kinematics; guaranteed by Acceleration), velocity kinematics
+(u and position kinematics; Velocity), articulated-body velocity (velocity kinematics and articulated-body inertias;
+Acceleration).  Their validity rule is C18's (`CacheEntryInfo::isUpToDate`): valid iff stage ≥ computed-by, or
+stage ≥ depends-on and marked valid since the depends-on stage version, q/u or a prerequisite entry last changed. -/
+inductive ME where
+  | pk | cbi | abi | vk | abv
+deriving Repr, DecidableEq, Inhabited
+
+def ME.all : List ME := [.pk, .cbi, .abi, .vk, .abv]
+def ME.name : ME → String
+  | .pk => "treePositionCacheIndex" | .cbi => "compositeBodyInertiaCacheIndex"
+  | .abi => "articulatedBodyInertiaCacheIndex" | .vk => "treeVelocityCacheIndex"
+  | .abv => "articulatedBodyVelocityCacheIndex"
+def ME.comp : ME → Nat
+  | .pk => 5 | .cbi => 10 | .abi => 8 | .vk => 6 | .abv => 8
+def ME.q : ME → Bool
+  | .pk => true | _ => false
+def ME.u : ME → Bool
+  | .vk => true | _ => false
+def ME.pre : ME → List ME
+  | .pk => [] | .cbi => [.pk] | .abi => [.pk] | .vk => [.pk] | .abv => [.vk, .abi]
+/-- the row of `Gen.matterEntries` that the model transcribes -/
+def ME.expected (e : ME) : Gen.MEntry :=
+  { name := e.name, dep := 3, comp := e.comp, q := e.q, u := e.u, z := false, pre := e.pre.map ME.name }
+
+/-- the entries invalidated together with `e` (`ListOfDependents::notePrerequisiteChange`, transitively; the proof
+file shows this is the closure of `ME.pre`) -/
+def ME.dependents : ME → List ME
+  | .pk => [.pk, .cbi, .abi, .vk, .abv] | .cbi => [.cbi] | .abi => [.abi, .abv] | .vk => [.vk, .abv] | .abv => [.abv]
+/-- the entries invalidated by a change of q, of u (dependents of the entries that list q, u as prerequisite) -/
+def ME.qDependents : List ME := [.pk, .cbi, .abi, .vk, .abv]
+def ME.uDependents : List ME := [.vk, .abv]
+/-- reads u, directly or through a prerequisite entry -/
+def ME.readsU : ME → Bool
+  | .vk | .abv => true | _ => false
+/-- the variable values entry `e` is computed from -/
+def minputs (v : Vars) (e : ME) : Snap :=
+  if e.readsU then [v.opt, v.inst, v.q, v.u] else [v.opt, v.inst, v.q]
+
+/-- marked-valid flags (version stamp current and "up to date with prerequisites") and contents of the five entries -/
+structure MC where
+  fPk : Bool := false
+  fCbi : Bool := false
+  fAbi : Bool := false
+  fVk : Bool := false
+  fAbv : Bool := false
+  sPk : Snap := []
+  sCbi : Snap := []
+  sAbi : Snap := []
+  sVk : Snap := []
+  sAbv : Snap := []
+deriving Repr, DecidableEq, Inhabited
+
+def MC.flag (m : MC) : ME → Bool
+  | .pk => m.fPk | .cbi => m.fCbi | .abi => m.fAbi | .vk => m.fVk | .abv => m.fAbv
+def MC.snap (m : MC) : ME → Snap
+  | .pk => m.sPk | .cbi => m.sCbi | .abi => m.sAbi | .vk => m.sVk | .abv => m.sAbv
+def MC.setFlag (m : MC) (e : ME) (b : Bool) : MC :=
+  match e with
+  | .pk => { m with fPk := b } | .cbi => { m with fCbi := b } | .abi => { m with fAbi := b }
+  | .vk => { m with fVk := b } | .abv => { m with fAbv := b }
+def MC.setSnap (m : MC) (e : ME) (s : Snap) : MC :=
+  match e with
+  | .pk => { m with sPk := s } | .cbi => { m with sCbi := s } | .abi => { m with sAbi := s }
+  | .vk => { m with sVk := s } | .abv => { m with sAbv := s }
+/-- `CacheEntryInfo::invalidate` for the listed entries -/
+def MC.clear (m : MC) (es : List ME) : MC := es.foldl (fun m e => m.setFlag e false) m
+/-- compute entry `e` from the values `s` and `markCacheValueRealized` -/
+def MC.mark (m : MC) (e : ME) (s : Snap) : MC := (m.setFlag e true).setSnap e s
+/-- `realizeXxx` below the computed-by stage: nothing to do if marked valid -/
+def MC.ensure (m : MC) (e : ME) (s : Snap) : MC := if m.flag e then m else m.mark e s
+/-- what `System::realize` from stage `a` to stage `b` does to the entries: realizeSubsystemPositionImpl calls
+realizePositionKinematics, …VelocityImpl realizeVelocityKinematics, …AccelerationImpl realizeArticulatedBodyInertias
+and realizeArticulatedBodyVelocity — every entry whose computed-by stage is passed, in that order (composite-body
+inertias have none) -/
+def MC.toEnsure (a b : Nat) : List ME := [ME.pk, .vk, .abi, .abv].filter (fun e => a < e.comp && e.comp ≤ b)
+def MC.advance (m : MC) (a b : Nat) (v : Vars) : MC :=
+  (MC.toEnsure a b).foldl (fun m e => m.ensure e (minputs v e)) m
 
 structure St where
   stage : Nat := 2
@@ -59,6 +149,7 @@ structure St where
   lazySnap : List Snap := []               -- per force: what that cache was computed from
   calls : List Nat := []                   -- per force: number of calcForce calls (observable for Custom forces)
   evals : List Nat := []                   -- per force: Force::Gravity::getNumEvaluations
+  m : MC := {}                             -- the matter subsystem's lazy cache entries
 deriving Repr, DecidableEq, Inhabited
 
 def setAt {α : Type} (l : List α) (i : Nat) (x : α) : List α :=
@@ -71,10 +162,15 @@ def bumpAt (l : List Nat) (i : Nat) : List Nat := setAt l i (l.getD i 0 + 1)
 
 def anyPosOnly (fs : List Force) : Bool := fs.any (·.posOnly)     -- someForceElementNeedsCaching
 
-/-- `StateImpl::invalidateAll(g)` seen from here: stage, and the lazy (depends-on Position) caches -/
+/-- `isCacheValueRealized` of a matter-subsystem entry -/
+def St.mvalid (st : St) (e : ME) : Bool := decide (e.comp ≤ st.stage) || (decide (3 ≤ st.stage) && st.m.flag e)
+
+/-- `StateImpl::invalidateAll(g)` seen from here: stage, the lazy (depends-on Position) force caches and the
+(depends-on Instance) matter entries, whose stage version stamps no longer match -/
 def St.inval (st : St) (g : Nat) : St :=
   { st with stage := min st.stage (g - 1),
-            lazyFresh := if g ≤ 5 ∧ 5 ≤ st.stage then st.lazyFresh.map (fun _ => false) else st.lazyFresh }
+            lazyFresh := if g ≤ 5 ∧ 5 ≤ st.stage then st.lazyFresh.map (fun _ => false) else st.lazyFresh,
+            m := if g ≤ 3 ∧ 3 ≤ st.stage then st.m.clear ME.all else st.m }
 
 /-- `GravityImpl::ensureForceCacheValid` for force `i` -/
 def St.ensure (fs : List Force) (st : St) (i : Nat) : St :=
@@ -122,16 +218,21 @@ def St.dynamics (fs : List Force) (st : St) : St :=
 def St.realize (fs : List Force) (st : St) (g : Nat) : St :=
   let st1 := if st.stage < 5 ∧ 5 ≤ g ∧ anyPosOnly fs then { st with cachedValid := false } else st
   let st2 := if st.stage < 7 ∧ 7 ≤ g then St.dynamics fs { st1 with stage := 6 } else st1
-  { st2 with stage := max st.stage g }
+  { st2 with stage := max st.stage g, m := st2.m.advance st.stage g st.vars }
 
 inductive Op where
   | setT (v : Nat) | setQ (v : Nat) | setU (v : Nat) | setZ (v : Nat)
   | setParam (i j v : Nat)            -- parameter j of (non-gravity) force i
   | setEnabled (i : Nat) (b : Bool)   -- GeneralForceSubsystem::setForceIsDisabled(state, i, !b)
-  | gravSet (i j v : Nat) (zero : Bool)  -- a Force::Gravity setter that changes parameter j (new value v)
+  | gravSet (i j v : Nat) (zero : Bool) (k : Nat)  -- Force::Gravity setter number k (order of `Gen.gravitySetters`)
+                                                   -- changes parameter j (new value v)
   | realize (g : Nat)
   | gravQuery (i : Nat)               -- Force::Gravity::getBodyForces / getPotentialEnergy (stage ≥ Position)
   | peQuery                           -- System::calcPotentialEnergy (stage ≥ Position)
+  | setInst (v : Nat)                 -- lock / lockAt / unlock of a mobilizer, Constraint::enable / disable (Instance)
+  | setOpt (v : Nat)                  -- SimbodyMatterSubsystem::setUseEulerAngles (Model)
+  | mRealize (e : ME)                 -- realizePositionKinematics / …CompositeBodyInertias / … (explicit requests)
+  | mInvalidate (e : ME)              -- invalidatePositionKinematics / … (explicit invalidations; const State)
 deriving Repr, DecidableEq, Inhabited
 
 def setParamVal (ps : List (List Nat)) (i j v : Nat) : List (List Nat) := setAt ps i (setAt (ps.getD i []) j v)
@@ -141,9 +242,11 @@ def legal (fs : List Force) (st : St) : Op → Bool
       | some f => !f.gravity && j < f.paramStages.length
       | none => false
   | .setEnabled i _ => i < fs.length
-  | .gravSet i j _ _ => match fs[i]? with
-      | some f => f.gravity && j < (st.vars.params.getD i []).length
+  | .gravSet i j _ _ k => match fs[i]? with
+      | some f => f.gravity && j < (st.vars.params.getD i []).length && k < f.setterInval.length
       | none => false
+  | .mRealize e => st.stage ≥ 3 && e.pre.all st.mvalid
+  | .mInvalidate _ => st.stage ≥ 3
   | .realize g => g ≤ 9
   | .gravQuery i => st.stage ≥ 5 && (match fs[i]? with | some f => f.gravity | none => false)
   | .peQuery => st.stage ≥ 5
@@ -151,8 +254,8 @@ def legal (fs : List Force) (st : St) : Op → Bool
 
 def step (fs : List Force) (st : St) : Op → St
   | .setT v => { (st.inval 4) with vars := { st.vars with t := v } }
-  | .setQ v => { (st.inval 5) with vars := { st.vars with q := v } }
-  | .setU v => { (st.inval 6) with vars := { st.vars with u := v } }
+  | .setQ v => { (st.inval 5) with vars := { st.vars with q := v }, m := (st.inval 5).m.clear ME.qDependents }
+  | .setU v => { (st.inval 6) with vars := { st.vars with u := v }, m := (st.inval 6).m.clear ME.uDependents }
   | .setZ v => { (st.inval 7) with vars := { st.vars with z := v } }
   | .setParam i j v =>
     -- only through the element's own setter: exists for non-gravity elements and allocated parameters
@@ -168,22 +271,34 @@ def step (fs : List Force) (st : St) : Op → St
       { st1 with vars := { st1.vars with enabled := setAt st1.vars.enabled i b },
                  cachedValid := if anyPosOnly fs then false else st1.cachedValid }
     else st1
-  | .gravSet i j v zero =>
-    -- invalidateForceCache(state); updParameters(state) (Dynamics); if the new magnitude is 0 the cache is
-    -- filled with the (q-independent) zeros right away
+  | .gravSet i j v zero k =>
+    -- invalidateForceCache(state) (if setter k does that: generated table); updParameters(state) (Dynamics); if
+    -- the new magnitude is 0 the cache is filled with the (q-independent) zeros right away
     if (fs.getD i default).gravity then
-      let st1 := { st with lazyFresh := setAt st.lazyFresh i false }
+      let st1 := if (fs.getD i default).setterInval.getD k true then { st with lazyFresh := setAt st.lazyFresh i false } else st
       let st2 := st1.inval 7
       let vars := { st2.vars with params := setParamVal st2.vars.params i j v, zeroMag := setAt st2.vars.zeroMag i zero }
       { st2 with vars := vars,
                  lazySnap := if zero then setAt st2.lazySnap i (inputs fs vars i) else st2.lazySnap }
     else st
-  | .realize g => st.realize fs g
+  | .realize g => st.realize fs (min g 9)      -- Stage::Report is the last stage a System realizes
   | .gravQuery i => if st.stage ≥ 5 ∧ (fs.getD i default).gravity = true then st.ensure fs i else st   -- throws below Position
   | .peQuery =>
     -- calcPotentialEnergy of every enabled force; only Force::Gravity touches a cache
     if st.stage ≥ 5 then (enabledIdx fs st.vars (fun f => f.gravity)).foldl (fun acc i => acc.ensure fs i) st
     else st
+  | .setInst v => { (st.inval 3) with vars := { st.vars with inst := v } }
+  | .setOpt v => { (st.inval 2) with vars := { st.vars with opt := v } }
+  | .mRealize e =>
+    -- throws unless the prerequisites are realized; returns at once if the entry is
+    if 3 ≤ st.stage ∧ e.pre.all st.mvalid = true then
+      (if st.mvalid e then st else { st with m := st.m.mark e (minputs st.vars e) })
+    else st
+  | .mInvalidate e =>
+    -- invalidateAllCacheAtOrAbove(computed-by stage) ("assumed calculated at that stage regardless of the flag"),
+    -- then markCacheValueNotRealized, which also invalidates the dependents
+    let st1 := if e.comp ≤ 9 then st.inval e.comp else st
+    { st1 with m := st1.m.clear e.dependents }
 
 def run (fs : List Force) (st : St) (ops : List Op) : St := ops.foldl (step fs) st
 
